@@ -54,9 +54,91 @@ def real_env_value(R, v):
 
 
 def real_target(R, t):
-    """Abstract target -> real path.  Targets that start with "/dev" are passed literally (get_default's
-    prefix test is on the raw argument)."""
-    return t if t.startswith("/dev") else R + t
+    """Abstract (plain str) target -> the str passed to pyflyby.  Targets that start with "/dev" are passed literally
+    (get_default's prefix test is on the raw argument); a relative target is passed as it is (the process's
+    current directory is the world's)."""
+    if t.startswith("/dev") or not t.startswith("/"):
+        return t
+    return R + t
+
+
+def plain_target(case, t):
+    """The plain str target that a target form (gen_c12.gen_target_forms) is equivalent to; this is what the Lean
+    model and the reference expansion receive.  Why equivalent for this property: get_default turns every form into a
+    str before anything else happens (None -> "." = the current directory; a Filename -> its str, which is the
+    normalised absolute path, and normalisation is what Path.resolve() does to the str anyway in a tree without links on
+    the target path); interpret_arg(None, t) is a plain call of get_default(t)."""
+    if t is None:
+        return case["cwd"]
+    if t.startswith("FN:") or t.startswith("IA:"):
+        return t[3:]
+    return t
+
+
+def call_target(M, R, t):
+    """One lookup of the real code for a target form."""
+    if t is None:
+        return M.ImportDB.get_default(None)
+    if t.startswith("FN:"):
+        from pyflyby._file import Filename
+        return M.ImportDB.get_default(Filename(real_target(R, t[3:])))
+    if t.startswith("IA:"):
+        return M.ImportDB.interpret_arg(None, real_target(R, t[3:]))
+    return M.ImportDB.get_default(real_target(R, t))
+
+
+def unsafe_cwd_dev(case, q):
+    """The one documented O-only situation: a /dev... target while the current directory is one pyflyby's Filename
+    refuses.  get_default then keeps the target's own directory, the REAL /dev (or /), whose ancestors are outside the
+    scratch world; the model's world has no such directory.  O still judges these lookups (reference: the real
+    directory, everything outside the scratch root on one simulated partition), K skips them and the histories they
+    occur in."""
+    return not _safe_path(case["cwd"]) and plain_target(case, q["t"]).startswith("/dev")
+
+
+def make_fake_dev(R, index):
+    def fake_dev(filename):
+        a = abstract_path(R, filename)
+        if a.startswith("OUTSIDE:"):
+            return -1                       # everything above the scratch root: another partition
+        n = index.get(a)
+        if n is None:
+            return None
+        if "ch" in n:
+            return n["dev"]
+        return index[a.rsplit("/", 1)[0] or "/"]["dev"]
+    return fake_dev
+
+
+class OsProxy:
+    """`os` as pyflyby._importdb sees it: the real module, except that `stat` reports the simulated partition of
+    the path as st_dev (everything else of the result is the real stat; a missing path raises as usual).  With
+    it the real `_get_st_dev` runs (it used to be replaced by the harness)."""
+
+    def __init__(self, real_os, fake_dev):
+        self._os = real_os
+        self._fake_dev = fake_dev
+
+    def __getattr__(self, name):
+        return getattr(self._os, name)
+
+    def stat(self, path, *a, **k):
+        st = self._os.stat(path, *a, **k)
+        dev = self._fake_dev(self._os.fspath(path))
+        if dev is None:
+            return st
+        f = list(st)
+        f[2] = dev
+        return self._os.stat_result(f)
+
+
+def install_os_proxy(M, R, index):
+    saved = M.os
+    M.os = OsProxy(saved if not isinstance(saved, OsProxy) else saved._os, make_fake_dev(R, index))
+    cache = getattr(M._get_st_dev, "cache", None)
+    if isinstance(cache, dict):
+        cache.clear()                       # the memo of another world says nothing about this one
+    return saved
 
 
 def abstract_path(R, p):
@@ -86,21 +168,8 @@ class World:
         import pyflyby._importdb as M
         from pyflyby._file import Filename
         self.M = M
-        self.saved = (M._get_st_dev, M._find_etc_dirs)
         R, index = self.R, self.index
-
-        def fake_st_dev(filename):
-            a = abstract_path(R, filename)
-            if a.startswith("OUTSIDE:"):
-                return -1                       # everything above the scratch root: another partition
-            n = index.get(a)
-            if n is None:
-                return None
-            if "ch" in n:
-                return n["dev"]
-            return index[a.rsplit("/", 1)[0] or "/"]["dev"]
-
-        M._get_st_dev = fake_st_dev
+        self.saved = (install_os_proxy(M, R, index), M._find_etc_dirs)
         etc = [Filename(R + e) for e in case["etc"]]
         M._find_etc_dirs = lambda: list(etc)
         # observe the file list get_default really loads (argument of _from_filenames)
@@ -115,7 +184,7 @@ class World:
 
     def close(self):
         M = self.M
-        M._get_st_dev, M._find_etc_dirs = self.saved
+        M.os, M._find_etc_dirs = self.saved
         M.ImportDB._from_filenames = self.saved_ff
         M.ImportDB._default_cache.clear()
         os.chdir(self.saved_cwd)
@@ -139,7 +208,7 @@ class World:
         """ImportDB.get_default on the current cache; returns the DB object or ('err', class name)."""
         self.set_env(q["env"])
         try:
-            return self.M.ImportDB.get_default(real_target(self.R, q["t"]))
+            return call_target(self.M, self.R, q["t"])
         except Exception as e:
             return ("err", exc_name(e))
 
@@ -217,10 +286,11 @@ def ref_target_dir(w, t):
     """Directory the search starts from: the target if it is a directory, else the nearest existing
     directory above it (a /dev... target means the current directory); path components pyflyby
     refuses to handle (unsafe characters) are skipped upwards."""
-    real = real_target(w.R, t)
-    if real.startswith("/dev"):
+    real = real_target(w.R, plain_target(w.case, t))
+    if real.startswith("/dev") and _safe_path(os.getcwd()):
         return os.getcwd()
-    p = os.path.normpath(real)
+    # (a /dev... target in a current directory that cannot be represented is a path like any other: the real /dev)
+    p = os.path.normpath(os.path.join(os.getcwd(), real))
     if not os.path.isdir(p):
         p = os.path.dirname(p)
     while not _safe_path(p):
@@ -279,15 +349,14 @@ def ref_files(w, q):
             dev0 = None
             while True:
                 a = abstract_path(R, d)
-                if a.startswith("OUTSIDE:"):
-                    break
-                dev = w.index[a]["dev"]
+                # everything outside the scratch root is one other (simulated) partition
+                dev = -1 if a.startswith("OUTSIDE:") else w.index[a]["dev"]
                 if dev0 is None:
                     dev0 = dev
                 if dev != dev0:
                     break
                 anc.append(d)
-                if d == R:
+                if d == "/":
                     break
                 d = os.path.dirname(d)
             for d in reversed(anc):
@@ -311,6 +380,21 @@ def ref_files(w, q):
         elif os.path.isdir(p):
             out.extend(ref_walk(p))
     return [abstract_path(R, p) for p in out]
+
+
+def ref_etc_dirs(pkgdir):
+    """The defaults that come before `.../.pyflyby` and `~/.pyflyby`: the etc/pyflyby of the installation (nearest
+    directory at/above the package that has one; the file system root itself is not looked at) and /etc/pyflyby."""
+    out = []
+    d = os.path.realpath(pkgdir)
+    while d != "/":
+        if os.path.isdir(os.path.join(d, "etc/pyflyby")):
+            out.append(os.path.join(d, "etc/pyflyby"))
+            break
+        d = os.path.dirname(d)
+    if os.path.exists("/etc/pyflyby"):
+        out.append("/etc/pyflyby")
+    return out
 
 
 def forgotten(imp, forget):
@@ -419,12 +503,20 @@ class C12(Prop):
     thorough_deadline_s = 600
     rule = ("worlds from harness/gen_c12.py: directory trees with files and directories named .pyflyby/.cfg at several "
             "ancestor levels, nested *.py directories with hidden entries, __pycache__, non-.py and unsafe names, simulated "
-            "partitions, database files with known/mandatory/canonical/forget statements in random order and spelling; "
+            "partitions, database files with known/mandatory/canonical/forget statements in random order and spelling "
+            "(several imports per list item, `;`/newline/comment inside an item, empty lists and items, FULLWIDTH identifiers "
+            "that NFKC-normalise to the ASCII name, 22 kinds of statement a database file must not contain); targets as absolute or "
+            "relative str, None, Filename object, or through interpret_arg; one world in ten has a current directory or $HOME "
+            "whose name pyflyby refuses (blank), with /dev/stdin-like targets; "
             "6 lookup histories (length <= 4) per world over a small target x env alphabet, plus (exhaustive) every history "
             "up to length 2 over a 3 x 2 alphabet (quick) / 3, every tenth world 4, over a 4 x 3 alphabet (thorough); a case is non-trivial when some lookup loads "
             ">= 2 files and some history has a cache hit")
     trusted_base = ["the rendering of abstract imports to Python text and its inverse (CPython import syntax)",
-                    "`_get_st_dev`, `_find_etc_dirs`, $HOME and the cwd are set by the harness (simulated partitions)",
+                    "`os.stat` as seen by pyflyby._importdb reports the simulated partition as st_dev (the real `_get_st_dev` runs on "
+                    "it); `_find_etc_dirs`, $HOME and the cwd are set by the harness (the real `_find_etc_dirs` is compared with "
+                    "<installation>/etc/pyflyby [+ /etc/pyflyby] in the fresh-interpreter reference)",
+                    "a /dev... target in a current directory pyflyby refuses resolves to the REAL /dev: judged by O only "
+                    "(reference: the real directory, everything above the scratch root on one partition), skipped by K",
                     "parsing of database files (PythonBlock, ImportStatement) is not modelled: the model receives the parsed "
                     "imports the generator rendered; the oracle compares the real parse with that ground truth"]
     assumptions = ["the tree, $HOME, the current directory and the etc-dir default do not change during a history",
@@ -450,7 +542,7 @@ class C12(Prop):
     # -- cases ---------------------------------------------------------------
     def gen_case(self, rng, i, tier):
         case = gen_c12.gen_world(rng)
-        targets = sorted({q["t"] for h in case["histories"] for q in h})
+        targets = [json.loads(x) for x in sorted({json.dumps(q["t"]) for h in case["histories"] for q in h})]
         envs = sorted({json.dumps(q["env"]) for h in case["histories"] for q in h})
         rng.shuffle(targets)
         rng.shuffle(envs)
@@ -488,7 +580,16 @@ class C12(Prop):
                     q = {"t": t, "env": e}
                     queries[qkey(q)] = q
         # uncached reference for every distinct query: cache cleared, get_default, file list from the (2, …) key
-        for k, q in queries.items():
+        obs["clear"] = []
+        for qi, (k, q) in enumerate(queries.items()):
+            if qi % 2 == 0:
+                # the public way of emptying the cache
+                try:
+                    DB.clear_default_cache()
+                    if len(DB._default_cache):
+                        obs["clear"].append("%d entries left" % len(DB._default_cache))
+                except Exception as e:
+                    obs["clear"].append("raised " + exc_name(e))
             DB._default_cache.clear()
             del w.loaded[:]
             r = w.lookup(q)
@@ -526,6 +627,21 @@ class C12(Prop):
                         rec(prefix + [q], dict(DB._default_cache), depth + 1)
             rec([], {}, 0)
             obs["exh"] = {"n": count[0], "bad": bad}
+        # clear_default_cache() with debug logging on (it then walks over the keys of the populated cache)
+        import io
+        from pyflyby._log import logger
+        lvl, err = logger.level, sys.stderr
+        sys.stderr = io.StringIO()
+        try:
+            logger.set_level("DEBUG")
+            DB.clear_default_cache()
+            if len(DB._default_cache):
+                obs["clear"].append("%d entries left (debug logging on)" % len(DB._default_cache))
+        except Exception as e:
+            obs["clear"].append("raised %s (debug logging on)" % exc_name(e))
+        finally:
+            logger.set_level(lvl)
+            sys.stderr = err
         # end-to-end lookups through get_known_import on every loaded database
         obs["gki"] = self._known_import_probe(w, memo)
         if case.get("autoimp"):
@@ -598,8 +714,15 @@ class C12(Prop):
             b = obs["exh"]["bad"][0]
             fails.append(dict(what="cached answer differs from a fresh load", history=b["history"], exhaustive=True,
                               got=_short(b["got"]), want=_short(b["want"])))
+        for c in sorted(set(obs.get("clear", []))):
+            fails.append(dict(what="clear_default_cache() does not leave an empty cache", detail=c))
         sp = obs.get("subproc")
         if sp is not None:
+            sp = dict(sp)
+            etc = sp.pop("__etc__", None)
+            if etc is not None and etc["got"] != etc["want"]:
+                fails.append(dict(what="default etc directories differ from <installation>/etc/pyflyby (+ /etc/pyflyby if it exists)",
+                                  got=etc["got"], want=etc["want"]))
             if "harness_err" in sp:
                 fails.append(dict(what="harness: reference subprocess failed", err=sp["harness_err"]))
             else:
@@ -623,6 +746,8 @@ class C12(Prop):
             if files != ref:
                 fails.append(dict(what="file list differs from the documented expansion", query=q, got=files, want=ref))
                 continue
+            if any(f.startswith("OUTSIDE:") for f in ref):
+                continue        # a database file of the real file system (above the scratch root): contents unknown
             # O3: union minus forget
             want = ref_db(_W, ref)
             if "err" in want or "err" in db:
@@ -725,8 +850,10 @@ class C12(Prop):
 
     def model_requests(self, case, obs):
         queries = [json.loads(k) for k in obs["fresh"]]
+        plain = lambda q: {"t": plain_target(case, q["t"]), "env": q["env"]}
         return [dict(op="world", tree=self._strip(case["tree"]), home=case["home"], cwd=case["cwd"], etc=case["etc"],
-                     queries=[{"t": t, "env": e} for t, e in queries], histories=case["histories"])]
+                     queries=[{"t": plain_target(case, t), "env": e} for t, e in queries],
+                     histories=[[plain(q) for q in h] for h in case["histories"]])]
 
     _d15_fixed = None
 
@@ -761,6 +888,9 @@ class C12(Prop):
         if not r.get("sorted"):
             return "directory listing sent to the model is not in the model's (code-point) order"
         for (k, fr), mf in zip(obs["fresh"].items(), r["fresh"]):
+            t, e = json.loads(k)
+            if unsafe_cwd_dev(case, {"t": t, "env": e}):
+                continue                                  # O-only, see unsafe_cwd_dev
             d = self._cmp_db(fr["db"], mf["db"])
             if d:
                 return "fresh %s: %s" % (k, d)
@@ -769,6 +899,8 @@ class C12(Prop):
             if self._keyset(fr["keys"]) != self._keyset(mf["keys"]):
                 return "fresh %s: cache keys impl=%s model=%s" % (k, self._keyset(fr["keys"]), self._keyset(mf["keys"]))
         for hi, (steps, msteps) in enumerate(zip(obs["hist"], r["hist"])):
+            if any(unsafe_cwd_dev(case, q) for q in case["histories"][hi]):
+                continue
             for si, (st, ms) in enumerate(zip(steps, msteps)):
                 d = self._cmp_db(st["db"], ms["db"])
                 if d:
@@ -793,8 +925,19 @@ class C12(Prop):
         def inc(k, n=1):
             acc[k] = acc.get(k, 0) + n
         inc("cases_from_" + case.get("_src", "?"))
-        for fr in obs["fresh"].values():
+        for k, fr in obs["fresh"].items():
+            t = json.loads(k)[0]
             inc("queries")
+            if t is None:
+                inc("query_target_None")
+            elif t[:3] in ("FN:", "IA:"):
+                inc("query_target_" + ("Filename_object" if t[:3] == "FN:" else "via_interpret_arg"))
+            elif not t.startswith("/"):
+                inc("query_target_relative")
+            if unsafe_cwd_dev(case, {"t": t}):
+                inc("query_O_only_dev_target_in_unsafe_cwd")
+            if not _safe_path(case["cwd"]):
+                inc("query_in_unsafe_cwd")
             if "err" in fr["db"]:
                 inc("query_err_" + fr["db"]["err"])
             else:
@@ -854,18 +997,11 @@ def _ref_main():
     import pyflyby._importdb as M
     from pyflyby._file import Filename
     index = tree_index(case["tree"])
-
-    def fake_st_dev(filename):
-        a = abstract_path(R, filename)
-        if a.startswith("OUTSIDE:"):
-            return -1
-        n = index.get(a)
-        if n is None:
-            return None
-        if "ch" in n:
-            return n["dev"]
-        return index[a.rsplit("/", 1)[0] or "/"]["dev"]
-    M._get_st_dev = fake_st_dev
+    try:
+        etc_real = [str(x) for x in M._find_etc_dirs()]      # the real function, before it is replaced
+    except Exception as e:
+        etc_real = "raised " + exc_name(e)
+    install_os_proxy(M, R, index)
     M._find_etc_dirs = lambda: [Filename(R + e) for e in case["etc"]]
     os.environ["HOME"] = R + case["home"]
     os.chdir(R + (case["cwd"] if case["cwd"] != "/" else ""))
@@ -879,10 +1015,11 @@ def _ref_main():
             else:
                 os.environ[k] = rv
         try:
-            r = M.ImportDB.get_default(real_target(R, q["t"]))
+            r = call_target(M, R, q["t"])
         except Exception as e:
             r = ("err", exc_name(e))
         out[qkey(q)] = ser_db(r)
+    out["__etc__"] = {"got": etc_real, "want": ref_etc_dirs(os.path.dirname(M.__file__))}
     json.dump(out, sys.stdout)
 
 
